@@ -8,6 +8,47 @@ pub(crate) struct MergeSubclauses {
     pub on_match: Vec<SetClause>,
 }
 
+/// Verification instrumentation (only with `--cfg nervusdb_verif`): per-thread recursion depth of
+/// the recursive productions of the parser (expression, query, FOREACH, pattern) and its
+/// high-water mark since the last `reset`.
+#[cfg(nervusdb_verif)]
+pub mod verif_depth {
+    use std::cell::Cell;
+
+    thread_local! {
+        static CURRENT: Cell<usize> = const { Cell::new(0) };
+        static HIGH_WATER: Cell<usize> = const { Cell::new(0) };
+    }
+
+    pub fn reset() {
+        CURRENT.with(|c| c.set(0));
+        HIGH_WATER.with(|h| h.set(0));
+    }
+
+    pub fn high_water() -> usize {
+        HIGH_WATER.with(|h| h.get())
+    }
+
+    pub(super) struct Guard;
+
+    impl Guard {
+        pub(super) fn enter() -> Guard {
+            let now = CURRENT.with(|c| {
+                c.set(c.get() + 1);
+                c.get()
+            });
+            HIGH_WATER.with(|h| h.set(h.get().max(now)));
+            Guard
+        }
+    }
+
+    impl Drop for Guard {
+        fn drop(&mut self) {
+            CURRENT.with(|c| c.set(c.get().saturating_sub(1)));
+        }
+    }
+}
+
 pub struct Parser<'a> {
     _phantom: std::marker::PhantomData<&'a ()>,
 }
@@ -92,6 +133,8 @@ impl TokenParser {
     }
 
     fn parse_query(&mut self) -> Result<Query, Error> {
+        #[cfg(nervusdb_verif)]
+        let _verif_depth = verif_depth::Guard::enter();
         self.ensure_budget()?;
         let mut clauses = self.parse_single_query_clauses()?;
         let mut union_mode: Option<bool> = None;
@@ -573,6 +616,8 @@ impl TokenParser {
     }
 
     fn parse_pattern(&mut self) -> Result<Pattern, Error> {
+        #[cfg(nervusdb_verif)]
+        let _verif_depth = verif_depth::Guard::enter();
         self.ensure_budget()?;
         let variable = if self.peek_is_identifier() && self.check_next(&TokenType::Equals) {
             let var = self.parse_identifier("path variable")?;
@@ -839,6 +884,8 @@ impl TokenParser {
     }
 
     fn parse_foreach(&mut self) -> Result<ForeachClause, Error> {
+        #[cfg(nervusdb_verif)]
+        let _verif_depth = verif_depth::Guard::enter();
         self.consume(&TokenType::LeftParen, "Expected '(' after FOREACH")?;
         let variable = self.parse_identifier("FOREACH variable")?;
         self.consume(&TokenType::In, "Expected IN after FOREACH variable")?;
@@ -1001,6 +1048,8 @@ impl TokenParser {
     }
 
     fn parse_expression_bp(&mut self, min_bp: u8) -> Result<Expression, Error> {
+        #[cfg(nervusdb_verif)]
+        let _verif_depth = verif_depth::Guard::enter();
         self.ensure_budget()?;
         let mut lhs = self.parse_prefix_expression()?;
 
